@@ -17,6 +17,9 @@ META = {
         "uninitbg: the callers cleared the feature bit in the superblock before the call, and with FLAG = gdt_csum metadata_csum is not set; "
         "ext2fs_read_bitmaps and zero_empty_inodes (cut) are stubs that record the feature word and may fail; 3 groups, no meta_bg",
         "zeroino: the scan stub delivers all 8 inodes in order (no checksum feature set while it runs: decided in uninitbg)",
+"rwpasses: rewrite_one_inode cut to a logging stub, every scan delivers the same 4 inodes in number order, EXT4_EA_INODE_FL only with the ea_inode feature; "
+        "rwone: the four static callees of rewrite_one_inode cut to logging stubs, all I/O stubs succeed, no 64bit feature",
+        "jrelease: the iterate stub presents the journal's data blocks and ONE mapping block (blockcnt < 0), the latter only without BLOCK_FLAG_DATA_ONLY",
         "jrelease / xlate / moveblk / movemap: bitmaps are one byte per block (bytemap.h); the block iterator, the allocator (first free block at or after "
         "the goal, wrapping), the bad-block list and the device are stubs; no flex_bg (tune2fs -I refuses it), no bigalloc",
     ],
@@ -24,7 +27,8 @@ META = {
         "THIS IS A SET OF KERNEL SLICES. No harness runs tune2fs main(), none runs a sequence of tune2fs invocations, none traverses a whole file "
         "system, none decides 'every file is unchanged' or 'e2fsck afterwards completes the conversion and checks clean'. The property as stated "
         "(any sequence of accepted requests on any consistent file system) is NOT decided",
-        "rewrite_metadata_checksums / rewrite_inodes / rewrite_one_inode / rewrite_directory (the traversal: which objects get a new checksum), "
+        "rewrite_metadata_checksums, rewrite_directory's block walk, and of rewrite_inodes / rewrite_one_inode everything behind the stubs of rwpasses / rwone "
+        "(the real inode scan, the hash computations update_ea_inode_hash / update_*_xattr_hashes themselves, the real inode / xattr writers), "
         "update_xattr_entry_hashes, the checksum values themselves (C14), ext2fs_init_csum_seed, MMP and journal superblock checksums",
         "enable_uninit_bg; of disable_uninit_bg / zero_empty_inodes everything behind the stubs of uninitbg / zeroino (the real bitmap loader, the real "
         "inode scan and its skipping of INODE_UNINIT groups / itable_unused tails under a checksum feature, the real inode writer); add_journal, remove_journal_device, "
@@ -158,7 +162,7 @@ HARNESSES += [
          configs=[{"NG": 3, "BPG": 8, "NJ": 3, "_unwindset": jr_uw(3, 8, 3)},
                   {"NG": 2, "BPG": 8, "NJ": 1, "_unwindset": jr_uw(2, 8, 1)},
                   {"NG": 3, "BPG": 8, "NJ": 5, "_unwindset": jr_uw(3, 8, 5), "_tier": "thorough"}],
-         unwind=4, backends=["default", "kissat"], witness_per_config=True,
+         unwind=4, backends=["kissat", "default"], witness_per_config=True,
          bound="2..3 groups x 8 blocks, journal of 1 / 3 (thorough 5) blocks anywhere; in-use set, journal inode number, flags, s_jnl_blocks, overhead symbolic"),
 ]
 def bm_uw(ng, bpg):
@@ -267,6 +271,31 @@ HARNESSES += [
          configs=[{"NG": 2, "IPG": 4, "ISZ": 32, "_unwindset": zi_uw(2, 4, 32)}],
          unwind=4, backends=["default", "kissat"],
          bound="as zeroino, plus ext2fs_open_inode_scan failing"),
+]
+HARNESSES += [
+    dict(name="rwpasses", src="rwpasses.c",
+         cut_statics={"misc/tune2fs.c": ["rewrite_one_inode"]},
+         funcs=["rewrite_inodes", "rewrite_inodes_pass"],
+         stubs=T2F_STUBS + ["ext2fs_open_inode_scan", "ext2fs_close_inode_scan", "ext2fs_get_next_inode_full", "rewrite_one_inode",
+                            "com_err", "perror", "gettimeofday"],
+         configs=[{"NI": 4}],
+         unwind=4, unwindset=["main.%d:10" % i for i in range(6)] +
+                             ["rewrite_inodes_pass.%d:6" % i for i in range(6)] + ["ext2fs_get_next_inode_full.0:5", "rewrite_one_inode.0:5"],
+         backends=["default", "kissat"],
+         bound="4 inodes per scan: every i_flags / i_mode; flags 0..7; ea_inode feature on / off; Hurd or not"),
+]
+RWONE_CUT = ["update_ea_inode_hash", "update_inline_xattr_hashes", "update_block_xattr_hashes", "rewrite_directory"]
+HARNESSES += [
+    dict(name="rwone", src="rwone.c", extra_src=["lib/ext2fs/blknum.c", "lib/ext2fs/valid_blk.c"],
+         cut_statics={"misc/tune2fs.c": RWONE_CUT},
+         funcs=["rewrite_one_inode", "ext2fs_file_acl_block", "ext2fs_inode_has_valid_blocks2"],
+         stubs=BM_STUBS + RWONE_CUT + ["ext2fs_write_inode_full", "ext2fs_fix_extents_checksums", "ext2fs_read_ext_attr3", "ext2fs_write_ext_attr3",
+                                       "com_err", "perror", "gettimeofday"],
+         configs=[{"ISZ": 256}, {"ISZ": 128}],
+         unwind=4, unwindset=["main.0:258", "main.1:258", "main.2:258", "ext2fs_write_inode_full.0:258", "memcmp.0:258", "memset.0:258",
+                              "ext2fs_test_generic_bmap.0:9", "ext2fs_mark_generic_bmap.0:9", "ext2fs_unmark_generic_bmap.0:9"],
+         backends=["default", "kissat"], witness_per_config=True,
+         bound="one inode of 256 / 128 bytes, every byte symbolic, in use or not"),
 ]
 MANIFEST = {
     "level": "model_checking",
